@@ -119,6 +119,9 @@ pub fn run(tier: &str, seed: u64, em: &mut Emitter) {
             emit(em, "systematic", &scenario_mainline(tx, ty), r.next());
             emit(em, "systematic", &scenario_chain_through_unconflicted(tx, ty), r.next());
             emit(em, "systematic", &scenario_concurrent_moderators(tx, ty), r.next());
+            for v in [8u8, 10] {
+                emit(em, "systematic", &crate::c07::scenario_restricted_join_vs_ban(v, tx + 10, ty + 10), r.next());
+            }
         }
     }
     // long one-sided forks (sizes around the powers of two and ten that caps and batch sizes like)
